@@ -7,7 +7,7 @@ The generators adapt to the guards of the current tree (lib/proxy_util.guards): 
 unrepaired daemon are limited to a few representative cases there (they are KNOWN-FINDINGs with exact signatures), on
 a repaired tree the whole fault stream runs.
 """
-import os, re, sys
+import os, random, re, sys, time
 sys.path.insert(0, os.path.join(os.path.dirname(os.path.abspath(__file__)), "..", "lib"))
 import verif
 import proxy_util as pu
@@ -614,6 +614,8 @@ class C19(verif.Spec):
         w = re.sub(r"c\d+:", "cN:", w)
         w = re.sub(r"\d+ outputs for \d+ ops", "N outputs for M ops", w)
         w = re.sub(r"stopped after \d+ ops", "stopped after N ops", w)
+        if w.startswith("runtime stage:"):
+            w = re.sub(r"\d+", "N", w)
         w = re.sub(r"aborts at op \d+", "aborts at op N", w)
         w = re.sub(r"WRITE of size \d+", "WRITE", w)
         w = re.sub(r"on address \S+ at pc \S+ bp \S+ sp \S+", "", w)
@@ -668,6 +670,21 @@ class C19(verif.Spec):
                     if len(res) > 3:
                         break
             self.stats["witness_pairs_compared"] = n
+        # (3) runtime stage (support, not proof): the real daemon as a process with real select/time/alarm, two witness
+        # processes built from src/proxy-client.c, one raw-socket fault client; lock-step frames (lib/proxy_util.py mp_*)
+        if not ctx.get("replay") and os.environ.get("VERIF_C19_RUNTIME", "1") != "0":
+            t0 = time.time()
+            quick = ctx["tier"] == "quick"
+            exes, err = pu.mp_build(verif)
+            if exes is None:
+                res.append(("runtime stage does not build: " + (err or "")[-600:], ["sizes"]))
+            else:
+                n = 5 if quick else 40
+                fails = pu.mp_run_schedules(verif, pu, random.Random(rng.randrange(1 << 30)), n, 25 if quick else 300, exes=exes)
+                self.stats["runtime_schedules"] = n
+                for what, detail in fails[:2]:
+                    res.append(("runtime stage: " + what, ["# " + l for l in detail[-120:]] + ["sizes"]))
+            self.stats["runtime_wall_s"] = round(time.time() - t0, 1)
         return res
 
     def baseline_of(self, case):
